@@ -19,6 +19,8 @@ Non-interference argument in four structural legs:
  R6 carried       : per-request loops carry no local from one iteration to the next (must-definition dataflow).
  R7 defaults      : mutable defaults of the request parameter tables are copied per instance.
  Re for-each      : loops that act on every item are never left early (break / return).
+ Ra alias mutation: a local that still names a list of another object (not copied) is never mutated in place.
+ R8 same request  : compare_reqs compares the same attribute of both requests (shared with C19-R8).
 """
 import ast
 
@@ -352,6 +354,23 @@ def re_foreach(ctx):
     ctx.need('Re.for-each', 3)
 
 
+def ra_alias(ctx):
+    """Ra: a local that still names a list / dict of another object (bound from an attribute or an item, not copied on that path:
+    freshness lattice) is never mutated in place"""
+    from .common import alias_mutation_rule
+    from ..memo import scope_funcs
+    alias_mutation_rule(ctx, 'Ra.alias-mutation', scope_funcs(ctx.repo, 'C16'), 'the topology / spectrum objects shared by all requests would be changed by one request')
+    ctx.need('Ra.alias-mutation', 20)
+
+
+def r8_same_request(ctx):
+    """R8: only identical requests are merged into one: compare_reqs compares the same attribute of both requests at every
+    comparison (shared with C19-R8) - otherwise the result of one request depends on an unrelated one in the batch"""
+    from .common import compare_pairs_rule
+    compare_pairs_rule(ctx, 'R8.same-request', 'a request would be merged with a different one present in the same batch and take its result')
+    ctx.need('R8.same-request', 15)
+
+
 from ..memo import rule_for as _memo_rule
 
 RULES_MEMO = ('Rm.memo', _memo_rule('C16', 'requests would share a result'))
@@ -361,4 +380,4 @@ from ..presence import rule_for as _presence_rule
 
 RULES_PRESENCE = ('Rp.presence', _presence_rule('C16', 'a legal zero would be read as missing'))
 
-RULES = [('R5.memo', r5_memo), ('R1.isolation', r1_isolation), ('R2.no-leak', r2_no_leak), ('R3.redesign', r3_redesign), ('R4.shared', r4_shared), RULES_MEMO, RULES_PRESENCE, ('R6.carried', r6_carried), ('R7.defaults', r7_defaults), ('Re.for-each', re_foreach)]
+RULES = [('R5.memo', r5_memo), ('R1.isolation', r1_isolation), ('R2.no-leak', r2_no_leak), ('R3.redesign', r3_redesign), ('R4.shared', r4_shared), RULES_MEMO, RULES_PRESENCE, ('R6.carried', r6_carried), ('R7.defaults', r7_defaults), ('Re.for-each', re_foreach), ('Ra.alias-mutation', ra_alias), ('R8.same-request', r8_same_request)]
